@@ -15,19 +15,26 @@ CFG = {
             "expected result for most out-of-range geometries; the distribution shows draws-something/draws-nothing).",
     "trusted_base": ["uniseg grapheme/line segmentation, uniseg/runewidth widths and strings.ContainsRune are parameters "
                      "(Lib, Raw): computed by the real libraries in the harness and passed to the model per case",
-                     "the observation hook VerifC11NextCells (copy of the next-frame buffer) and VerifC11SetWidthCaps"],
+                     "the observation hooks VerifC11NextCells (copy of the next-frame buffer), VerifC11CursorNext and the setter VerifC11SetWidthCaps"],
     "assumptions": ["the next-frame buffer has the shape resize() gives it (Screen.WF) — resize is the only writer of buf/rows/cols"],
     "level_text": "Proved for all integer geometries, chains, screens, texts and library functions: setCell_clip / setStyle_clip "
                   "(changed cell = origin+offset, inside the window, every ancestor and the screen; else unchanged), "
                   "drawops_clip and its instances for Fill/Clear/Print/PrintTruncate/Println/Wrap, fill_covers, "
                   "screen_index_ok (no index panic), print_is_layout / println_is_layout / printTruncate_is_layout / "
                   "wrap_is_layout (the SetCell calls are the reading-order layout of the spec), print_order / wrap_order "
-                  "(strictly increasing reading order), layout_one_call_per_cluster, new_region.",
+                  "(strictly increasing reading order), layout_one_call_per_cluster, new_region; composed with the C01 renderer and the "
+                  "reference terminal: app_history_displays, app_screen_is_last_write (Props/C01App: what the terminal shows after a Render is "
+                  "the fold of the Spec.Window writes that hit each cell); showCursor_position / showCursor_in_screen (Window.ShowCursor = origin + "
+                  "offset, unclipped); clear_resets_all_placements / render_after_clear_deletes_all (Clear on any window empties the next-frame "
+                  "placement list, joined with C20's placement model).",
     "level_note": "Model tied to the source by Gen/WindowFacts.lean (guards, clamp switch, tab count, re-measure sites; "
                   "theorems facts_* fail to compile when window.go/screen.go/character.go change shape) and by the "
-                  "correspondence run through real Window values on a real Vaxis (fake console). Validated by "
-                  "correspondence only: that the Lean transcription of the loops equals the Go loops. Not modelled: "
-                  "Clear's reset of graphics placements, ShowCursor.",
+                  "correspondence run through real Window values on a real Vaxis (fake console), now including Window.ShowCursor. "
+                  "The oracle also observes the text helpers through the reference terminal's reading (continuation columns of wide "
+                  "clusters): known finding F111 (Print/Wrap put a cluster wider than the rest of the window's row on its last column; "
+                  "it is displayed beyond the window) is recorded with a witness (Witness/F111.lean), not repaired. Validated by "
+                  "correspondence only: that the Lean transcription of the loops equals the Go loops. The body of ShowCursor is "
+                  "hand-transcribed (cursorPos) and tied by correspondence only.",
     "technique": "Lean 4 proof (induction on the parent chain / on the text) + extractor + differential correspondence",
     "timeout": 900,
 }
